@@ -44,7 +44,7 @@ def frozen_c(flag_path=None):
 
 def pers_target(beh, flag_path=None):
     """target of a persistent worker: one enqueue(beh, flag) puts the child into the behaviour"""
-    return {'coop': coop_loop, 'swallow': swallow_loop, 'sleep': sleep_block, 'frozen': frozen_c}[beh](flag_path)
+    return {'coop': coop_loop, 'swallow': swallow_loop, 'sleep': sleep_block, 'frozen': frozen_c, 'linger': linger_raise}[beh](flag_path)
 
 
 def quick_ret():
@@ -175,6 +175,15 @@ def linger_ret(flag_path=None, linger=8.0):
     threading.Thread(target=time.sleep, args=(linger,), name='left-behind').start()
     _mark(flag_path)
     return 7
+
+
+def linger_raise(flag_path=None, linger=8.0):
+    """item of a persistent worker: leaves a non-daemon thread behind and fails - the child's loop ends, it reports, closes its
+    pipes (the arguments pipe too) and the process lives on for `linger` seconds"""
+    import threading
+    threading.Thread(target=time.sleep, args=(linger,), name='left-behind').start()
+    _mark(flag_path)
+    raise RuntimeError('this item fails after leaving a thread behind')
 
 
 # ---- C04: a result that takes long to rebuild on the parent side (keeps the frontend thread of a remote worker busy) ----
